@@ -130,6 +130,10 @@ def step (d : DState) (line : String) : DState × String :=
       | ["restart"] | ["restart", "lazy"] =>
         let s := d.store.apply (.restart (toks.length == 2))
         ({ d with store := s, born := s.blobs.map (fun b => (b.id, d.now)) }, "ok")
+      | "replayfrom" :: rest =>
+        -- the directory is replaced by the one the pinned release wrote for the same history (C17)
+        let s := d.store.apply (.restart (rest.contains "lazy"))
+        ({ d with store := s, born := s.blobs.map (fun b => (b.id, d.now)) }, "ok")
       | "flipsweep" :: _ =>
         -- altered data bytes are never served (C05); the command ends with a reopen of the intact directory
         let s := d.store.apply (.restart false)
